@@ -144,26 +144,28 @@ FIELD_TYPES = {
 }
 
 
-def field_type(cls, attr):
-    for c in ([cls] if cls else []) + [None]:
-        k = '%s.%s' % (c, attr) if c else attr
-        if k in FIELD_TYPES:
-            return FIELD_TYPES[k]
-    # inherited: look through declared superclasses
+def _owner(cls, attr):
+    """the class (cls itself or an ancestor) that declares a class-specific type for attr, else None (generic table)"""
+    if cls and '%s.%s' % (cls, attr) in FIELD_TYPES:
+        return cls
     for anc, subs in SUBCLASSES.items():
         if cls in subs and '%s.%s' % (anc, attr) in FIELD_TYPES:
-            return FIELD_TYPES['%s.%s' % (anc, attr)]
+            return anc
+    return None
+
+
+def field_type(cls, attr):
+    o = _owner(cls, attr)
+    if o is not None:
+        return FIELD_TYPES['%s.%s' % (o, attr)]
+    if attr in FIELD_TYPES:
+        return FIELD_TYPES[attr]
     raise OutOfSubset('unknown field %s.%s' % (cls, attr))
 
 
 def field_array_name(cls, attr):
-    for c in ([cls] if cls else []):
-        if '%s.%s' % (c, attr) in FIELD_TYPES:
-            return 'f:%s.%s' % (c, attr)
-    for anc, subs in SUBCLASSES.items():
-        if cls in subs and '%s.%s' % (anc, attr) in FIELD_TYPES:
-            return 'f:%s.%s' % (anc, attr)
-    return 'f:' + attr
+    o = _owner(cls, attr)
+    return 'f:%s.%s' % (o, attr) if o is not None else 'f:' + attr
 
 
 BASE_ARRAYS = {'cls': IA_I, 'dom': z3.ArraySort(I, KB), 'valR': z3.ArraySort(I, KR), 'valI': z3.ArraySort(I, KI),
@@ -254,7 +256,7 @@ class Heap:
 def fresh_value(ty, base):
     if ty.k == 'opt':
         inner = fresh_value(ty.a[0], base)
-        return V(ty, inner.t, none=fresh(base + '?none', B))
+        return V(ty, inner.t, items=inner.items, none=fresh(base + '?none', B))
     if ty.k == 'tuple':
         return V(ty, items=[fresh_value(t, '%s.%d' % (base, i)) for i, t in enumerate(ty.a)])
     if ty.k == 'none':
@@ -624,6 +626,11 @@ class Engine:
             return a.py('dict')
         if ka == 'ref' and self.reg.has_contract(a.ty.a[0], '__eq__'):
             raise OutOfSubset('== dispatching to __eq__ as a value at line %d' % line)
+        if ka == 'dict' and kb == 'dict' and a.ty.a[0].k == 'real' and b.ty.a[0].k == 'real':
+            # dict == dict: same keys, same values (keys compared as Key terms: identity of the key objects)
+            k = fresh('k', Key)
+            return z3.ForAll([k], z3.And(st.heap.has(a.t, k) == st.heap.has(b.t, k),
+                                         z3.Implies(st.heap.has(a.t, k), st.heap.get(a.t, k) == st.heap.get(b.t, k))))
         if ka == 'list' and kb == 'list':
             # list == list: same length and pairwise equal elements (elements are object references compared by identity:
             # assumed for the opaque solver objects stored in these lists)
@@ -767,6 +774,13 @@ class Engine:
                 i = n + i
             self.emit('safe.IndexError@%d' % e.lineno, st, z3.And(i >= 0, i < n), e.lineno, tag='aux')
             return self.list_elem(st, base, i)
+        if base.ty.k == 'htuple' and isinstance(e.slice, ast.Slice):
+            sl = e.slice
+            if sl.upper is None and sl.step is None and isinstance(sl.lower, ast.Constant) and isinstance(sl.lower.value, int) and sl.lower.value >= 0:
+                k0 = sl.lower.value
+                items = [V(t, st.heap.fld(None, 't%d' % j, base.t)) for j, t in enumerate(base.ty.a)][k0:]
+                return V(TTuple(*[i.ty for i in items]), items=items)
+            raise OutOfSubset('tuple slice at line %d' % e.lineno)
         if base.ty.k == 'htuple':
             idx = self.ev(e.slice, st)
             if idx.ty.k == 'int' and z3.is_int_value(idx.t):
@@ -1073,7 +1087,10 @@ class Engine:
         return VNONE
 
     def heapify_tuple(self, st, v):
+        if getattr(v, 'hid', None) is not None:
+            return V(THeapTuple(*[i.ty for i in v.items]), v.hid)       # the same tuple object stored a second time keeps its identity
         r = self.alloc(st, 'tuple')
+        v.hid = r
         for i, it in enumerate(v.items):
             if smt_sort(it.ty) != I:
                 raise OutOfSubset('heap tuple with non-reference item')
@@ -1488,6 +1505,18 @@ class Engine:
     def st_For(self, s, st):
         if s.orelse:
             raise OutOfSubset('for/else at line %d' % s.lineno)
+        if isinstance(s.iter, ast.Name) and s.iter.id in st.env and st.env[s.iter.id].ty.k in ('tuple', 'htuple'):
+            # iteration over a tuple of known length: unrolled (no invariant needed)
+            tv = st.env[s.iter.id]
+            items = tv.items if tv.ty.k == 'tuple' else [V(t, st.heap.fld(None, 't%d' % j, tv.t)) for j, t in enumerate(tv.ty.a)]
+            states = [st]
+            for it in items:
+                nxt = []
+                for x in states:
+                    self.assign_to(s.target, it, x, s.lineno)
+                    nxt += self.run_block(s.body, x)
+                states = nxt
+            return states
         n = self.loop_ids[id(s)]
         spec = self.c.loops.get(n)
         if spec is None:
@@ -1821,6 +1850,12 @@ class Engine:
             return v
         if ty.k == 'tuple' and v.ty.k == 'tuple' and len(ty.a) == len(v.items):
             return V(ty, items=[self.coerce_result(i, t, st, line) for i, t in zip(v.items, ty.a)])
+        if ty.k == 'opt' and ty.a[0].k == 'tuple':
+            if v.ty.k == 'none':
+                return V(ty, items=fresh_value(ty.a[0], 'none').items, none=z3.BoolVal(True))
+            if v.ty.k == 'tuple' and len(v.items) == len(ty.a[0].a):
+                inner = self.coerce_result(v, ty.a[0], st, line)
+                return V(ty, items=inner.items, none=z3.BoolVal(False))
         if ty.k == 'opt' and v.ty.k == 'none':
             return V(ty, fresh('none', smt_sort(ty.a[0])), none=z3.BoolVal(True))
         if ty.k == 'opt' and v.ty == ty.a[0]:
